@@ -724,6 +724,7 @@ def run(pid, tier, seed, replay=None, theorems=None, module=None):
         return rep.finish()
     stats = collections.Counter()
     cases = []
+    corpus_cases = []
     if replay:
         text = open(replay).read()
         blocks = []
@@ -738,15 +739,29 @@ def run(pid, tier, seed, replay=None, theorems=None, module=None):
         P.evaluate_case = lambda case, answers, rep, stats, _P=P: Prop.evaluate_case(_P, case, answers, rep, stats)
     else:
         n = P.n_quick * (THOROUGH_MULT if tier == "thorough" else 1)
-        # corpus first
+        # corpus first: minimised past failures (corpus/<pid>/*.txt, protocol blocks), judged by the plain per-request evaluation
+        cdir = os.path.join(os.path.dirname(os.path.dirname(os.path.abspath(__file__))), "corpus", pid)
+        for fn in sorted(os.listdir(cdir)) if os.path.isdir(cdir) else []:
+            cur, blocks = [], []
+            for line in open(os.path.join(cdir, fn)).read().splitlines(True):
+                if line.startswith("#"): continue
+                cur.append(line)
+                if line.strip() == "end":
+                    did, d, reqs, _ = gen.parse_protocol("".join(cur)); cur = []
+                    blocks.append(("corpus-%s-%s" % (fn.split(".")[0], did), d, [gen.parse_query(r) for r in reqs]))
+            if blocks:
+                corpus_cases.append(dict(did="corpus-" + fn, blocks=blocks, delta=0, base=[]))
         for k in range(n):
             rng = random.Random(seed * 1000003 + k * 7919 + int(pid[1:]))
             cases.append(P.plan_case(rng, "%s-%d-%d" % (pid, seed, k)))
     flat = []
-    for c in cases:
+    for c in corpus_cases + cases:
         for did, d, reqs in c["blocks"]:
             flat.append((did, block_text(did, d, reqs), [k if k in ("route", "summary", "accessibility") else "route" for k, q in reqs]))
     res = engine.run_cases(flat, impl, model)
+    for c in corpus_cases:
+        Prop.evaluate_case(P, c, res, rep, stats)
+    stats["corpus cases"] = len(corpus_cases)
     for c in cases:
         P.evaluate_case(c, res, rep, stats)
         if replay:
